@@ -796,7 +796,7 @@ func genFailHopCase(r *rand.Rand) Sess {
 	if r.Intn(4) == 0 {
 		hop = r.Intn(n)
 	}
-	s.Fail = &FailSpec{At: len(s.Ops), Hop: hop, TimeoutMs: 400}
+	s.Fail = &FailSpec{At: len(s.Ops), Hop: hop, TimeoutMs: 500}
 	fop := s.opTowards(r, t)
 	s.Ops = append(s.Ops, fop)
 	// afterwards: SendCommand(s) first, then 1-3 more
@@ -830,7 +830,7 @@ func gen(tier string, seed int64) []mon.Case {
 	if tier == "thorough" {
 		maxN = 5
 		variants = []string{"plain", "auth", "overlap", "auth+overlap"}
-		nBig, nSeq = 400, 5000
+		nBig, nSeq = 400, 4000
 	}
 	idx := 0
 	rng := func() *rand.Rand {
@@ -881,7 +881,7 @@ func gen(tier string, seed int64) []mon.Case {
 	}
 	nFail := 40
 	if tier == "thorough" {
-		nFail = 600
+		nFail = 400
 	}
 	for i := 0; i < nFail; i++ {
 		cs = append(cs, mon.MkCase(fmt.Sprintf("c04/failhop-%04d", i), genFailHopCase(rng())))
